@@ -1,3 +1,126 @@
 import JSight.Model.Scanner
+import JSight.Proofs.ScanLexAbs
+import JSight.Proofs.ScanLex
+/-!
+# C14 — lexical integrity of the scanner
+
+Theorems about `lexAll`, the model of repeated `Scanner.Next()` over the regenerated scanner table
+(`Gen.code`).  Method (`Proofs/ScanLexAbs.lean`, `Proofs/ScanLex.lean`):
+
+* an abstract interpreter `aRun` of the table (open Begin event, distance to the end of the last event,
+  byte classes read since `KeywordBegin`, path condition on the current byte, step register / step stack);
+* per-state certificates `certs` COMPUTED from the table (`certMapC`: depth-first propagation from
+  `stateRoot`; `stackableC`: the states that can be on the step stack);
+* the table theorem `ScanLex.table_ok : ∀ st ∈ St.all, stateOK certs st = true` by `decide +kernel` over the
+  CURRENT table — it fails when the Go scanner is changed so that a property below breaks;
+* generic soundness of the abstract interpreter (`interp_sound`, `byteStep_inv`) and induction over
+  `drainFinds` / `byteLoop` / `next` / `lexAll` (`lexAll_good`).
+
+Deviations from the planned statements (all found by evaluating the model, see the `example`s at the end):
+
+* (1) for Enum: `scanEnumBody` advances by `enumLength - 1` only `if enumLength > 0`, so an oracle answer
+  `len 0` gives a lexeme of length 1 — the statement has `max k 1`; `body_is_library_value'` is the planned
+  statement under the hypothesis that the enum library never answers `len 0` (it is given a `[`).
+* (3) holds WITHOUT the hypotheses on the oracle (a body that overruns the input ends the byte loop before
+  `SchemaEnd` is found); `in_bounds'` is the planned statement.  No End event is ever found at `d.size`.
+-/
 namespace JSight.C14
+open JSight Gen ScanLex
+
+/-- (1) a body lexeme is exactly what the schema library delimited: a Schema lexeme starting at p has length
+    `n` where the oracle answered `len n` at p (Enum: `max n 1`, see the header) -/
+theorem body_is_library_value (d : Src) (o : Oracle) (n : Nat) :
+    ∀ lex ∈ (lexAll d o n Sc.init []).1,
+      (lex.ty = .schema → ∃ k, o.schemaLen lex.b = .len k ∧ lex.e1 = lex.b + k) ∧
+      (lex.ty = .enum → ∃ k, o.enumLen lex.b = .len k ∧ lex.e1 = lex.b + max k 1) := by
+  intro lex hl
+  have h := (lexAll_good d o n).2 lex hl
+  exact ⟨h.2.2.1, h.2.2.2.1⟩
+
+/-- (1), as planned, when the enum library never delimits an empty body -/
+theorem body_is_library_value' (d : Src) (o : Oracle) (n : Nat) (hne : ∀ p, o.enumLen p ≠ .len 0) :
+    ∀ lex ∈ (lexAll d o n Sc.init []).1,
+      (lex.ty = .schema → ∃ k, o.schemaLen lex.b = .len k ∧ lex.e1 = lex.b + k) ∧
+      (lex.ty = .enum → ∃ k, o.enumLen lex.b = .len k ∧ lex.e1 = lex.b + k) := by
+  intro lex hl
+  obtain ⟨h1, h2⟩ := body_is_library_value d o n lex hl
+  refine ⟨h1, fun ht => ?_⟩
+  obtain ⟨k, hk, he⟩ := h2 ht
+  refine ⟨k, hk, ?_⟩
+  cases k with
+  | zero => exact absurd hk (hne _)
+  | succ k => rw [he]; congr 1; omega
+
+/-- a 3-digit response code 1xx–5xx (exactly Go's `IsHTTPResponseCode`: 100–599) -/
+def isResponseCode (b : Bytes) : Bool :=
+  match b with
+  | [a, x, y] => (49 ≤ a && a ≤ 53) && (48 ≤ x && x ≤ 57) && (48 ≤ y && y ≤ 57)
+  | _ => false
+
+/-- (2) every keyword lexeme spells a directive name of the directive table, or a 3-digit response code 1xx–5xx -/
+theorem keyword_spells (d : Src) (o : Oracle) (n : Nat) :
+    ∀ lex ∈ (lexAll d o n Sc.init []).1, lex.ty = .keyword →
+      (∃ k ∈ Kind.all, k ≠ Kind.HTTPResponseCode ∧ d.slice lex.b lex.e1 = k.name.toUTF8.toList)
+      ∨ isResponseCode (d.slice lex.b lex.e1) = true := by
+  intro lex hl ht
+  have h := ((lexAll_good d o n).2 lex hl).2.2.2.2 ht
+  simp only [isKw, Bool.or_eq_true, List.any_eq_true, Bool.and_eq_true, bne_iff_ne, beq_iff_eq] at h
+  rcases h with h | ⟨k, hk, hne, he⟩
+  · exact .inr h
+  · exact .inl ⟨k, hk, hne, he.symm⟩
+
+/-- (3) lexemes lie inside the input and are well formed (no hypothesis on the oracle is needed) -/
+theorem in_bounds (d : Src) (o : Oracle) (n : Nat) :
+    ∀ lex ∈ (lexAll d o n Sc.init []).1, lex.b ≤ lex.e1 ∧ lex.e1 ≤ d.size := by
+  intro lex hl
+  have h := (lexAll_good d o n).2 lex hl
+  exact ⟨h.1, h.2.1⟩
+
+/-- (3) as planned -/
+theorem in_bounds' (d : Src) (o : Oracle) (n : Nat)
+    (_ho : ∀ p k, o.schemaLen p = .len k → p + k ≤ d.size) (_ho' : ∀ p k, o.enumLen p = .len k → p + k ≤ d.size) :
+    ∀ lex ∈ (lexAll d o n Sc.init []).1, lex.b ≤ lex.e1 ∧ lex.e1 ≤ d.size :=
+  in_bounds d o n
+
+/-- (4) lexemes come in increasing position and do not overlap -/
+theorem ordered (d : Src) (o : Oracle) (n : Nat) :
+    List.Pairwise (fun l₁ l₂ : Lexeme => l₁.e1 ≤ l₂.b) (lexAll d o n Sc.init []).1 :=
+  (lexAll_good d o n).1
+
+/-! ### concrete runs -/
+
+def noOracle : Oracle := ⟨fun _ => .miss, fun _ => .miss⟩
+
+def lexemes (s : String) (o : Oracle := noOracle) : List (LexTy × Nat × Nat) :=
+  ((lexAll (Src.ofList s.toUTF8.toList) o 100 Sc.init []).1).map fun l => (l.ty, l.b, l.e1)
+
+example : lexemes "GET /a // x\n  200 any\n" =
+    [(.keyword, 0, 3), (.parameter, 4, 6), (.annotation, 9, 11), (.keyword, 14, 17), (.parameter, 18, 21)] := by
+  decide +kernel
+
+/-- empty lexemes (`//` with nothing after it, `/**/`) are `(b, b)`; `ordered` is stated with `≤` -/
+example : lexemes "GET /a //" = [(.keyword, 0, 3), (.parameter, 4, 6), (.annotation, 9, 9)] := by decide +kernel
+example : lexemes "GET /**/\n" = [(.keyword, 0, 3), (.annotation, 6, 6)] := by decide +kernel
+
+/-- an empty Description text followed by `)`: the empty Text lexeme and the ContextClose lexeme start at the
+same position -/
+example : lexemes "Description\n)" = [(.keyword, 0, 11), (.text, 12, 12), (.contextClose, 12, 13)] := by
+  decide +kernel
+
+/-- a schema body is what the library delimited -/
+example : lexemes "TYPE @a\n{}\n" ⟨fun p => if p = 8 then .len 2 else .miss, fun _ => .miss⟩ =
+    [(.keyword, 0, 4), (.parameter, 5, 7), (.schema, 8, 10)] := by decide +kernel
+
+/-- a body that overruns the input is never delivered (so `in_bounds` needs no hypothesis on the oracle) -/
+example : lexemes "TYPE @a\n{}" ⟨fun _ => .len 3, fun _ => .miss⟩ = [(.keyword, 0, 4), (.parameter, 5, 7)] := by
+  decide +kernel
+
+/-- the reason for `max k 1` in (1): an enum answer `len 0` still gives a lexeme of length 1 -/
+example : lexemes "ENUM @a\n[ 1]" ⟨fun _ => .miss, fun _ => .len 0⟩ =
+    [(.keyword, 0, 4), (.parameter, 5, 7), (.enum, 8, 9)] := by decide +kernel
+
+/-- response codes: exactly 100–599 -/
+example : lexemes "200" = [(.keyword, 0, 3)] := by decide +kernel
+example : lexemes "600" = [] := by decide +kernel
+
 end JSight.C14
